@@ -44,6 +44,10 @@ PARTIAL_HINT = ("skip", "take", "filter", "step_by", "first", "last", "get", "nt
                 "split_at", "split_first", "split_last", "peekable")
 
 
+def canon(name):
+    return name.replace("gc_arena::", "") if name else name
+
+
 class Site:
     def __init__(self, bb, kind, ty_s, chain, root, line, raw):
         self.bb, self.kind, self.ty_s, self.chain, self.root, self.line, self.raw = bb, kind, ty_s, chain, root, line, raw
@@ -110,9 +114,9 @@ def _local_chains(prog, body, defs, local, depth, seen):
             # trait methods are identified by the trait's method (IntoIterator::into_iter, Iterator::next,
             # Deref::deref ..): adapters show up as their own calls in the chain; inherent methods by def path
             if f.get("trait"):
-                name = norm(f["def"])
+                name = canon(norm(f["def"]))
             else:
-                name = norm(r["def"]) if r and r["ik"] == "Item" else norm(f["def"])
+                name = canon(norm(r["def"]) if r and r["ik"] == "Item" else norm(f["def"]))
             if not t["args"]:
                 out.add(("other", (name,), ()))
                 continue
@@ -130,7 +134,7 @@ def trace_sites(prog, body):
         t = bb["t"]
         if not t or t["k"] != "call" or t["f"].get("indirect"):
             continue
-        dn = norm(t["f"]["def"])
+        dn = canon(norm(t["f"]["def"]))
         if dn not in TRACE_FNS:
             continue
         kind = TRACE_FNS[dn]
@@ -327,7 +331,7 @@ def guard_consts(prog, body):
                     cands.append(d["o"]["uneval"])
         for u in cands:
             if u["s"].endswith("::NEEDS_TRACE"):
-                m = re.match(r"^<(.*) as collect::Collect(<.*>)?>::NEEDS_TRACE$", u["s"])
+                m = re.match(r"^<(.*) as (?:gc_arena::)?collect::Collect(<.*>)?>::NEEDS_TRACE$", u["s"])
                 x = m.group(1) if m else u["s"]
                 true_t = t["otherwise"] if t["vals"] == [0] else None
                 out.append((bi, x, true_t))
@@ -338,7 +342,7 @@ def collect_params(prog, im):
     """Type parameters of an impl carrying a Collect bound (their type ids and names)."""
     out = {}
     for p in im["predicates"]:
-        if p["k"] == "trait" and p["trait"] == "collect::Collect":
+        if p["k"] == "trait" and canon(p["trait"]) == "collect::Collect":
             out[p["self_s"]] = p["self"]
     return out
 
